@@ -6,6 +6,7 @@ seeds=${@:-2 3 7 42}
 for s in $seeds; do
   for p in C01 C02 C03 C04 C05 C06 C07 C08 C09 C10 C11 C12 C13 C14 C15 C16 C17 C18 C19 C20; do
     out=$(VERIF_SEED=$s tools/vcheck $p --tier $tier 2>&1); rc=$?
+    if [ $rc -ne 0 ]; then echo "$out" > /var/tmp/multiseed-fail-$s-$p.log; fi
     echo "seed=$s $p rc=$rc $(echo "$out" | grep -E '^(PASS|FAIL|UNDECIDED|VIOLATION)' | head -2 | tr '\n' ' ' | cut -c1-300)"
   done
 done
